@@ -60,6 +60,7 @@ type Event struct {
 	Spec   tally.Buckets // buckets argument as passed (not copied)
 	Marker string
 	Who    int // marker: harness goroutine / caller index
+	Src    int // Recorder.Src of the recorder that logged the event
 }
 
 // Agg is the running aggregate per metric identity.
@@ -85,6 +86,8 @@ type Recorder struct {
 	// CloseErr is returned by Close of the closer variants.
 	CloseErr error
 	Caps     tally.Capabilities
+	// Src is copied into every event (tells two recorders' merged logs apart).
+	Src int
 }
 
 func NewRecorder(keepLog bool) *Recorder {
@@ -130,6 +133,7 @@ func (r *Recorder) add(ev Event) int64 {
 	}
 	r.mu.Lock()
 	ev.Seq = NextSeq()
+	ev.Src = r.Src
 	r.Counts[ev.Kind]++
 	switch ev.Kind {
 	case EvCounter, EvGauge, EvTimer, EvHistV, EvHistD:
